@@ -24,12 +24,36 @@ FAILS = {
     "bad-int": lambda rng, d: "add-" + rng.choice(["x", "1.5", "", "~~"]),
     "bad-float": lambda rng, d: "fl-" + rng.choice(["abc", "1,5", "--1"]),
     "too-few": lambda rng, d: rng.choice(["rep", "argsc", "let-a", "getvar"]),
-    "too-many": lambda rng, d: rng.choice(["add-1-2", "ident-x", "cat-a-b", "bo-t-f", "one-1"]),
+    # also commands whose signature has a `context` parameter (it consumes no query argument)
+    "too-many": lambda rng, d: rng.choice(["add-1-2", "ident-x", "cat-a-b", "bo-t-f", "one-1", "nocache-t", "nocache-1-2", "sub-one-x"]),
     "type": lambda rng, d: rng.choice(["app-x", "add-1"]) if False else "app-x",
     "link-abs": lambda rng, d: "add-" + nest(rng, d, True),
     "link-rel": lambda rng, d: "cat-" + nest(rng, d, False),
     "sub": lambda rng, d: "sub-" + H.enc(rng.choice(["one/boom", "zzz", "one/add-x", "one/(", "num-1-2"])),
 }
+
+# a referenced resource is missing (implementation-side oracle only: resource segments are outside the evaluator model): the global
+# store holds `present.txt` only; (query, calls that may have been executed before the failure)
+MISSING_RESOURCE = [("-R/nokey/x.txt", []), ("nokey/x.txt/-/ident", []), ("nokey/-/ident/add-1", []), ("-R/nokey/-/cat-a/boom", []),
+                    ("one/cat-~X~/nokey/x.txt/-/ident~E", ["root.one(N;)"]), ("one/cat-~X~-R/nokey~E/add-1", ["root.one(N;)"]),
+                    ("one/add-1/cat-~X~/nokey/-/ident/cat-b~E/cat-c", ["root.one(N;)", "root.add(I1;I1)"]), ("-R/present.txt/zz/-/ident", []),
+                    # a key that exists but has no data (a directory): known finding C06-dataless-resource
+                    ("-R/dir", []), ("dir/-/ident/add-1", []), ("one/cat-~X~/dir/-/ident~E", ["root.one(N;)"])]
+
+
+def judge_resource(q, allowed, o):
+    what = "evaluate(%r) [the resource does not exist in the store]" % q
+    if o["kind"] in ("parse-error", "exception", "raised"):
+        bad_calls = [c for c in o.get("calls", []) if c not in allowed]
+        return ("calls:resource", "%s raised but executed %r" % (what, bad_calls)) if bad_calls else None
+    if not o["is_error"]:
+        return "normal:resource", "%s returned a normal-looking state with value %s" % (what, o["value"])
+    if not o["get_raises"]:
+        return "get:resource", "%s: state is marked as error but get() returned a value" % what
+    bad_calls = [c for c in o.get("calls", []) if c not in allowed]
+    if bad_calls:
+        return "calls:resource", "%s executed %r although the resource to their left is missing" % (what, bad_calls)
+    return None
 
 
 def nest(rng, depth, absolute):
@@ -153,6 +177,19 @@ def run(ctx):
     sessions = [([("E", q)], {}) for kind, npre, nsuf, q, cfg in items]
     kinds = ["1" if cfg else "N" for kind, npre, nsuf, q, cfg in items]
     EP.model_sessions(ctx, "failing queries vs evaluator model (outcome, reported position/query, calls)", sessions, kinds, lines)
+    # missing resources: oracle only
+    rtasks = [(cfg, [("E", q)], {}) for q, _ in MISSING_RESOURCE for cfg in (None, 1)]
+    rres = [EP.run_session_task(t) for t in rtasks]
+    for (cfg, ops, _), res in zip(rtasks, rres):
+        q = ops[0][1]
+        allowed = dict(MISSING_RESOURCE)[q]
+        o = res[0][1]
+        ctx.case("resource|%s|%s" % (q, "m" if cfg else "n"))
+        ctx.count("failure kind", "missing resource")
+        bad = judge_resource(q, allowed, o)
+        if bad:
+            dataless = q in ("-R/dir", "dir/-/ident/add-1", "one/cat-~X~/dir/-/ident~E")
+            ctx.violation("dataless-resource" if dataless else bad[0] + ":" + q, bad[1], dict(kind="resource", query=q, cache=cfg))
 
 
 def search(ctx, broken, disagreements):
@@ -167,6 +204,10 @@ def search(ctx, broken, disagreements):
 
 
 def replay(ctx, case):
+    if case.get("kind") == "resource":
+        res = EP.run_session_task((case["cache"], [("E", case["query"])], {}))
+        bad = judge_resource(case["query"], dict(MISSING_RESOURCE)[case["query"]], res[0][1])
+        return bad[1] if bad else None
     res = EP.run_session_task((case["cache"], [("E", case["query"])], {}))
     bad = judge_one(case["fkind"], case["npre"], case["nsuf"], case["query"], res[0][1])
     return None if not bad else bad[1]
